@@ -183,11 +183,11 @@ def run_case(case):
             res.count("exact_or_stat_cases")
             res.count("exact_outcomes", len(joint))
             if sum(obs.values()) != total:
-                res.violate("enumeration-size-mismatch(harness)", got=sum(obs.values()), want=total, **ctx)
+                res.violate("enumeration-size-mismatch(harness)", got=sum(obs.values()), want=total, ctx=ctx)
             elif obs != joint:
                 d = {repr(k): (obs.get(k, 0), joint.get(k, 0)) for k in set(obs) | set(joint) if obs.get(k, 0) != joint.get(k, 0)}
                 res.violate("placement-histogram-differs-from-uniform-bijection-law", outcome_got_want=dict(list(d.items())[:4]),
-                            n_outcomes=len(joint), runs=total, **ctx)
+                            n_outcomes=len(joint), runs=total, ctx=ctx)
     if case["mode"] == "stat":
         expected = {k: v / total for k, v in joint.items()}
         network = cfg["flavour"] == "network"
@@ -214,7 +214,7 @@ def run_case(case):
         res.count("stat_cases")
         res.count("exact_or_stat_cases")
         if not ok:
-            res.violate("placement-frequencies-reject-the-uniform-bijection-law", info=info, n_outcomes=len(expected), **ctx)
+            res.violate("placement-frequencies-reject-the-uniform-bijection-law", info=info, n_outcomes=len(expected), ctx=ctx)
     res.nontrivial = len(joint) >= 3
     res.digest = digest([cfg, jds, case["mode"]])
     res.sample = {"cfg": cfg, "jds": jds, "mode": case["mode"], "stubs_per_column": n_c, "outcomes": len(joint), "space": total}
